@@ -24,13 +24,15 @@ Points == {"write", "read-first", "read-mid", "after-reply"}
 \* the peer does (eof: it closes; reset) - before replying, after a part of the response, or right after the complete response
 \* ("junk" before the reply: the server sends a well-framed message the client cannot decode - an unsolicited server-to-client request
 \* with vendor content - and then its reply; the connection is of no use any more, whatever the server sends on it afterwards)
-KindsAt(p) == IF p = "write" THEN {"eof", "closed", "reset", "short"} ELSE IF p = "read-first" THEN {"eof", "reset", "junk"} ELSE {"eof", "reset"}
+\* ("srvreq" before the reply: the server sends a well-formed REQUEST message of its own - a Query, a Notify - and then its reply. That is
+\* not a failure: the client is no server, it lets the message pass and goes on waiting for its response on the same connection)
+KindsAt(p) == IF p = "write" THEN {"eof", "closed", "reset", "short"} ELSE IF p = "read-first" THEN {"eof", "reset", "junk", "srvreq"} ELSE {"eof", "reset"}
 \* refuse: the server refuses the version negotiation it receives on the SECOND connection (an error item instead of the version list):
 \* when a failure inside Dial has made the client reconnect, the negotiation ends with an error on a connection that is alive - Dial
 \* fails, and the connection it had replaced the failed one with is given up like any other (closed, nothing left behind)
 NoPlan == [pt |-> "none", kind |-> "none", persist |-> FALSE, exch |-> 0, refuse |-> FALSE]
 AllPlans == UNION {{[pt |-> p, kind |-> k, persist |-> b, exch |-> e, refuse |-> r] : k \in KindsAt(p), b \in BOOLEAN, e \in 1..2, r \in BOOLEAN} : p \in Points}
-Plans == {NoPlan} \cup {q \in AllPlans : q.refuse => (q.exch = 1 /\ q.pt # "after-reply" /\ ~q.persist)}
+Plans == {NoPlan} \cup {q \in AllPlans : q.refuse => (q.exch = 1 /\ q.pt # "after-reply" /\ ~q.persist /\ q.kind # "srvreq")}
 
 VARIABLES plan, exch, pc, gen, dead, sent, replied, tries, dials, attempts, budget, failedNow, fired, result,
           idleDeath      \* the connection died while no call was using it: the client learns it when it next uses the connection
@@ -72,7 +74,7 @@ Reply == /\ pc = "busy" /\ sent /\ ~replied /\ replied' = TRUE
          /\ UNCHANGED <<plan, exch, pc, gen, dead, sent, tries, dials, attempts, budget, failedNow, fired, result, idleDeath>>
 
 \* a read fails: before any byte of the response was read (whether or not the server has replied), or in the middle of it
-FaultRead == /\ Applies /\ sent
+FaultRead == /\ Applies /\ sent /\ plan.kind # "srvreq"
              /\ \/ plan.pt = "read-first"
                 \/ plan.pt = "read-mid" /\ replied
              /\ dead' = TRUE /\ failedNow' = TRUE /\ fired' = fired + 1
@@ -108,7 +110,7 @@ AtMostFour == tries <= 4 /\ dials <= 4
 \* a failure that does not persist is survived: the exchange after a failed one succeeds, and so does every exchange the failure
 \* did not hit
 Recovers == \A i \in 1..Len(result) :
-              result[i] = "err" => /\ plan.pt # "none"
+              result[i] = "err" => /\ plan.pt # "none" /\ plan.kind # "srvreq"
                                    /\ (~plan.persist => IF plan.pt = "after-reply" THEN i = plan.exch + 1 ELSE i = plan.exch)
                                    /\ (plan.persist => i >= plan.exch)
 \* a failure after the complete response does not cost that call its response
